@@ -17,7 +17,7 @@ from harness.common import facts as F
 # raise, the order of calls, pushes and pops) is regenerated into Gen/Facts_C13.v on every run.  Leaves (which
 # opaque call, its arguments) are abstracted to `Call`; generators marked (inlined) are translated inline at
 # their `with` sites.  Kept in sync with what translate() actually emits by facts() (problem if they differ).
-TRANSLATED = [
+TRANSLATED_A = [
     'pyramid/request.py:CallbackMethodsMixin._process_response_callbacks',
     'pyramid/request.py:CallbackMethodsMixin._process_finished_callbacks',
     'pyramid/router.py:Router.finish_request',
@@ -52,6 +52,11 @@ TRANSLATED = [
     'pyramid/scripting.py:prepare.closer',
     'pyramid/scripting.py:AppEnvironment.__exit__',
 ]
+
+# what tools/coverage_map.py reads: the skeleton translations above plus the functions translated into the
+# exception/state monad by translate_b.py
+from harness.c13.translate_b import TRANSLATED_B as _TB     # noqa: E402
+TRANSLATED = TRANSLATED_A + [t for t in _TB if t not in TRANSLATED_A]
 
 # ---- marks (Definition mk_* in Facts) -----------------------------------
 MARKS = {
@@ -647,8 +652,8 @@ def translate(src):
     for name in sorted(P):
         lines.append('Definition %s : stmt := %s.' % (name, coq(P[name])))
     got = set(skel) | set('%s:%s' % k for k in tr.inlined)
-    if got != set(TRANSLATED):
-        tr.problems.append('translator: TRANSLATED is out of date: %s' % sorted(got ^ set(TRANSLATED)))
+    if got != set(TRANSLATED_A):
+        tr.problems.append('translator: TRANSLATED_A is out of date: %s' % sorted(got ^ set(TRANSLATED_A)))
     return {'coq': '\n'.join(lines) + '\n', 'skeletons': skel, 'problems': tr.problems,
             'opaque_lines': {k: sorted(v) for k, v in tr.opaque.items()},
             'programs': {n: pretty(P[n]) for n in P}}
